@@ -91,6 +91,14 @@ func (g *gen) intExpr(depth int) *Expr {
 			}
 			return eVar(g.intVar())
 		case 3:
+			switch g.p.intn(4) {
+			case 0:
+				g.ops["str.Index/LastIndex/Count"]++
+				return method(aVar(g.strVar()), pick(g.p, []string{"Index", "LastIndex", "Count"}), cStr(pick(g.p, []string{"a", "l", "", "lo", "ll", "-"})))
+			case 1:
+				g.ops["str.Compare"]++
+				return method(aVar(g.strVar()), "Compare", g.strExpr(0))
+			}
 			return method(aVar(g.strVar()), "Len")
 		case 4:
 			if g.p.chance(1, 2) {
@@ -144,6 +152,21 @@ func (g *gen) strExpr(depth int) *Expr {
 		case 0:
 			return cStr(pick(g.p, []string{"a", "ab", "", "Hello", "x"}))
 		case 1:
+			switch g.p.intn(6) {
+			case 0:
+				g.ops["str.Trim"]++
+				return method(aVar(g.strVar()), "Trim")
+			case 1:
+				g.ops["str.Replace"]++
+				return method(aVar(g.strVar()), "Replace", cStr(pick(g.p, []string{"l", "a", "", "lo", "-"})), cStr(pick(g.p, []string{"", "L", "xy"})))
+			case 2:
+				g.ops["str.Repeat"]++
+				n := int64(g.p.intn(4))
+				if g.p.chance(1, 12) {
+					n = -1 // strings.Repeat panics
+				}
+				return method(aVar(g.strVar()), "Repeat", cInt(n))
+			}
 			return method(aVar(g.strVar()), pick(g.p, []string{"ToUpper", "ToLower"}))
 		case 2:
 			return method(aVar(vName("F")), "Concat", eVar(g.strVar()), cStr("-"), eVar(g.strVar()))
@@ -207,6 +230,20 @@ func (g *gen) cmp() *Expr {
 	case 9:
 		switch g.p.intn(4) {
 		case 0:
+			if g.p.chance(1, 4) {
+				g.ops["str.In"]++
+				var args []*Expr
+				for i := g.p.intn(4); i > 0; i-- {
+					args = append(args, g.strExpr(0))
+				}
+				if g.p.chance(1, 6) {
+					args = append(args, cInt(1)) // no string: an error unless an earlier argument already matched
+					if g.p.chance(1, 2) {
+						args = append([]*Expr{eVar(g.strVar())}, args...)
+					}
+				}
+				return method(aVar(g.strVar()), "In", args...)
+			}
 			return method(aVar(g.strVar()), pick(g.p, []string{"Contains", "HasPrefix", "HasSuffix"}), cStr(pick(g.p, []string{"a", "H", "", "lo"})))
 		case 1:
 			return method(aVar(vName("F")), "IsPos", g.floatExpr(0))
